@@ -147,6 +147,12 @@ def isTruthy : PV → Bool
   | .json (.num i) => i ≠ 0
   | _ => true
 
+/-- `msg["k"]` / `msg.get("k")` (an absent key reads as `None`; `msg["k"]` is only evaluated after a presence check) -/
+def getPV (o : JObj) (k : String) : PV :=
+  match jget o k with
+  | some v => ofJson v
+  | Option.none => .none
+
 def eval (x : Conn) (ctx : Ctx) (env : List (String × PV)) : PE → PV
   | .none_ => .none
   | .true_ => .bool true
@@ -156,8 +162,8 @@ def eval (x : Conn) (ctx : Ctx) (env : List (String × PV)) : PE → PV
   | .rx => .time
   | .attr a => getAttr x a
   | .local_ v => (env.lookup v).getD .none
-  | .item k => match jget ctx.msg k with | some v => ofJson v | Option.none => .none
-  | .get k => match jget ctx.msg k with | some v => ofJson v | Option.none => .none
+  | .item k => getPV ctx.msg k
+  | .get k => getPV ctx.msg k
   | .getPair k => match jget ctx.msg k with | some v => .json v | Option.none => .json (.pair .null .null)
   | .has k => .bool (jget ctx.msg k).isSome
   | .not_ e => .bool (!isTruthy (eval x ctx env e))
